@@ -10,7 +10,7 @@ Require Import SC3.gen.Gen_scgftables SC3.gen.Gen_opcodes.
 Require Import SC3.model.Scgf SC3.model.GraphScgf.
 Require Import SC3.proofs.C02_scgf SC3.proofs.C02_wf SC3.proofs.C02_total SC3.proofs.C02_reader SC3.proofs.C02_variants
                SC3.proofs.C02_bridge SC3.proofs.C02_link.
-Require SC3.proofs.C01_built.
+Require SC3.proofs.C01_built SC3.proofs.C01_local.
 Close Scope string_scope.
 Close Scope nat_scope.
 Open Scope Z_scope.
@@ -227,6 +227,26 @@ Theorem compiled_programs_roundtrip_partial : forall f32 name pnames p g,
                /\ write_def d = Some bs /\ parse_def bs = Ok d.
 Proof. exact compile_roundtrip_l. Qed.
 
+(* FULL (3rd round, proofs/C01_local.v by the builder of C01): graph_local_ok holds of every graph the compiler model
+   emits -- the class name of every unit is one of finitely many ASCII literals, every stored input `O v ch` has
+   ch < nouts (unit v), a Control unit covers a part of the control array: invariants carried from the constructor
+   calls through every step of the optimiser, _topological_sort and _index_ugens.  Hence for EVERY program the
+   compiler model compiles, inside the integer ranges of the format (graph_small) and with an acceptable name /
+   parameter table (names_ok) -- outside them the real writer raises --, the definition exists, is well-formed,
+   is written and parses back. *)
+Theorem compiled_graph_local_ok : forall p g,
+  Graph.compile C01_built.T dce_strict dce_guard sub_guard p = Graph.Ok g -> graph_local_ok g = true.
+Proof. exact C01_local.compile_local_ok. Qed.
+
+Theorem compiled_programs_roundtrip : forall f32 name pnames p g,
+  (forall q, w32_ok (f32 q) = true) ->
+  Graph.compile C01_built.T dce_strict dce_guard sub_guard p = Graph.Ok g ->
+  graph_small g = true ->
+  names_ok name pnames (zlen (Graph.gr_controls g)) = true ->
+  exists d bs, to_sdef f32 name pnames g = Some d /\ wf_def d = true
+               /\ write_def d = Some bs /\ parse_def bs = Ok d.
+Proof. exact C01_local.compile_roundtrip_full_l. Qed.
+
 (* ---- non-vacuity: a concrete definition (SinOsc.ar(freq) -> Pan2 -> Out, one control 'gate'),
         accepted by the writer, well-formed, read back by both readers ---- *)
 Definition ex_def : sdef :=
@@ -311,5 +331,7 @@ Print Assumptions wf_def_sound.
 Print Assumptions reader_recovers.
 Print Assumptions parse_total.
 Print Assumptions compiled_programs_roundtrip_partial.
+Print Assumptions compiled_graph_local_ok.
+Print Assumptions compiled_programs_roundtrip.
 Print Assumptions compiled_programs_topologically_ordered.
 Print Assumptions reader_io_units.
